@@ -4,6 +4,7 @@ import (
 	"encoding/json"
 	"errors"
 	"fmt"
+	"math"
 	"net"
 	"os"
 	"reflect"
@@ -211,6 +212,9 @@ func eq(validName string, tv reflect.Value) (eqStr, uintStr, cusMsg string, isEq
 		}
 	case reflect.Float32, reflect.Float64:
 		if tv.Float() != float64(eqInt) {
+			isEq = false
+		}
+		if isEq && math.Abs(tv.Float()) >= 1<<53 && cmpFloatInt(tv.Float(), eqInt) != 0 { // float64(eqInt) 丢了精度
 			isEq = false
 		}
 	case reflect.Slice:
